@@ -167,6 +167,128 @@ def expect_event(t, root, tree, opts):
     return {"e": "Expect", "items": items, "tree": tree}
 
 
+def model_event(t, tree, opt, filters, pre, answers):
+    """ExpectModel event: the generator only says what the archive is meant to contain; TreeModel.tla computes the tree"""
+    items = []
+    for it in t.items:
+        p = it["p"]
+        e = {"pb": list(p + (b"/" if it["ty"] == "dir" else b"")), "comps": EG.loc_of(p), "ty": it["ty"], "size": 0, "crc": 0,
+             "mtime": [-1], "mode": -1, "traw": ""}
+        if it["ty"] == "file":
+            e.update(size=len(it["data"]), crc=arc.crc16(it["data"]), mode=it["mode"])
+            if it["mtime"]:
+                e["mtime"] = [(it["mtime"] >> 16) & 0xFFFF, it["mtime"] & 0xFFFF]
+        elif it["ty"] == "dir":
+            e["mode"] = it["mode"]
+            if it["mtime"] and (it["p"] + b"/") not in t.has_deferred:
+                e["mtime"] = [(it["mtime"] >> 16) & 0xFFFF, it["mtime"] & 0xFFFF]
+        elif it["ty"] == "link":
+            e["traw"] = it["t"].hex()
+        items.append(e)
+    wd = []
+    for o in opt:
+        if o.startswith("w="):
+            wd = EG.loc_of(o[2:])
+    return {"e": "ExpectModel", "items": items, "filters": [list(f) for f in filters],
+            "opts": {"flat": "i" in opt, "wd": wd, "policy": "all" if any(o == "f" or o.startswith("q") for o in opt) else "prompt"},
+            "pre": [{"comps": EG.loc_of(rel), "size": len(val), "crc": arc.crc16(val), "mode": 0o644} for (rel, kind, val, md) in pre],
+            "answers": list(answers), "tree": tree}
+
+
+def model_case(rng, t, opt):
+    """wildcard arguments, files already present, and what is typed at the overwrite prompt"""
+    files = [it for it in t.items if it["ty"] == "file"]
+    filters = []
+    if rng.random() < 0.5 and t.items:
+        for _ in range(rng.choice([1, 1, 2])):
+            it = rng.choice(t.items)
+            full = it["p"] + (b"/" if it["ty"] == "dir" else b"")
+            q = rng.random()
+            if q < 0.25:
+                filters.append(full)
+            elif q < 0.5:
+                filters.append(full[:rng.randrange(1, len(full) + 1)] + b"*")
+            elif q < 0.65:
+                filters.append(b"*" + full[rng.randrange(len(full)):])
+            elif q < 0.8:
+                filters.append(bytes(63 if rng.random() < 0.3 else c for c in full))
+            else:
+                filters.append(rng.choice([b"*", b"*.txt", b"n?", b"*/*", b"n1*", b"*_X*", b"?*/?*"]))
+    wd = b""
+    for o in opt:
+        if o.startswith("w="):
+            wd = o[2:].encode() + b"/"
+    pre = []
+    seen = set()
+    for it in files:
+        if rng.random() < 0.45:
+            rel = it["p"].split(b"/")[-1] if "i" in opt else it["p"]
+            rel = wd + rel
+            if rel in seen:
+                continue
+            seen.add(rel)
+            pre.append((rel.decode("ascii"), "file", b"old contents %d" % len(pre), 0o644))
+    lines = [rng.choice([b"y", b"n", b"", b"Y", b"N", b"x", b"yes", b"no way", b"  y", b"q", b"A", b"S", b"a", b"s"]) for _ in range(rng.randint(0, 6))]
+    lines.append(rng.choice([b"a", b"s", b"All", b"skip"]))
+    stdin = b"".join(ln + b"\n" for ln in lines)
+    answers = bytes((ln + b"\n")[0] for ln in lines)
+    return filters, pre, stdin, answers
+
+
+def policy_pass(rng, sc, tier, ev):
+    """the library's own extraction (lha_reader_extract with the paths of the headers) under each of its three
+    directory policies: the tree left behind must be TreeModel's.  Under the PLAIN policy a directory's metadata is
+    applied when it is created, so the time stamp of a directory that receives children afterwards is not guaranteed."""
+    rdrv = V.build_driver("reader_drv", "san", wrap=True)
+    n = 45 if tier == "quick" else 600
+    jobs, meta = [], []
+    for i in range(n):
+        t = Tree(random.Random(rng.getrandbits(32)), tier)
+        t.fill(b"", 0)
+        pol = ("plain", "eod", "eof")[i % 3]
+        rd = os.path.join(sc, "pol_%d" % i)
+        xd = os.path.join(rd, "x")
+        os.makedirs(xd)
+        a = os.path.join(rd, "a.lzh")
+        open(a, "wb").write(arc.archive(t.members))
+        jobs.append("exec - %s path %s %s 0 - %s" % (a, pol, xd, ",".join(["N,X"] * (2 * len(t.members) + 3))))
+        meta.append((t, pol, xd))
+        ev.cls(("library-policy", pol, bool(t.has_deferred)))
+    res = TR.run_sharded(rdrv, jobs, sc, "pol")
+    for jf, tr, k, p in res:
+        if p.returncode != 0:
+            raise V.HarnessError("reader_drv failed in the policy pass: %s" % (p.stderr or b"").decode(errors="replace")[-400:])
+    out = []
+    nsh = V.NCPU
+    for k in range(nsh):
+        tr = os.path.join(sc, "pol_expect_%d.ndjson" % k)
+        cnt = 0
+        with open(tr, "w") as f:
+            for (t, pol, xd) in meta[k::nsh]:
+                tree = EG.walk_tree(xd)
+                e = model_event(t, tree, ["f"], [], [], b"")
+                if pol == "plain":
+                    parents = {it["p"] for it in t.items if it["ty"] == "dir" and any(o["p"].startswith(it["p"] + b"/") for o in t.items)}
+                    for it, x in zip(t.items, e["items"]):
+                        if it["p"] in parents:
+                            x["mtime"] = [-1]
+                f.write(json.dumps({"e": "Reset", "cwd": EG.loc_of(xd), "root": EG.loc_of(xd), "pre": [], "mode": "extract", "case": "policy-" + pol}, separators=(",", ":")) + "\n")
+                f.write(json.dumps(e, separators=(",", ":")) + "\n")
+                cnt += 1
+
+        class P: returncode = 0; stderr = b""
+        if cnt:
+            out.append((tr, tr, cnt, P()))
+    for (t, pol, xd) in meta:
+        for dp, dns, fns in os.walk(xd):
+            try:
+                os.chmod(dp, 0o700)
+            except OSError:
+                pass
+    ev.set("library_policy_extractions", len(meta))
+    return out
+
+
 def run(tier, seed, ev):
     rng = random.Random(seed)
     sc = V.scratch("c06")
@@ -177,15 +299,15 @@ def run(tier, seed, ev):
     for i in range(ncases):
         t = Tree(random.Random(rng.getrandbits(32)), tier)
         t.fill(b"", 0)
-        opt = rng.choice([[], [], ["f"], ["q0"], ["q1"], ["q2"], ["v"], ["i"], ["w=out"], ["f", "w=a/b"], ["q1", "f", "v"]])
-        cases.append((i, t, opt))
+        opt = rng.choice([[], [], ["f"], ["q0"], ["q1"], ["q2"], ["v"], ["i"], ["w=out"], ["f", "w=a/b"], ["q1", "f", "v"], ["i", "w=o"], ["i", "f"]])
+        cases.append((i, t, opt, model_case(rng, t, opt) if i % 2 else None))
     os.umask(0o022)
 
     def one(k):
         tr = os.path.join(sc, "e_trace_%d.ndjson" % k)
         n = 0
         with open(tr, "w") as f:
-            for (i, t, opt) in cases[k::V.NCPU]:
+            for (i, t, opt, mc) in cases[k::V.NCPU]:
                 rd = os.path.join(sc, "run_%d" % i)
                 os.makedirs(rd); os.chmod(rd, 0o755)
                 a = os.path.join(rd, "a.lzh")
@@ -194,13 +316,20 @@ def run(tier, seed, ev):
                 for o in opt:
                     if o.startswith("w="):
                         wdir = o[2:]
-                args = ["x" + "".join(o for o in opt)]
+                args = [("x" if i % 3 else "e") + "".join(o for o in sorted(opt, key=lambda o: o.startswith("w=")))]
                 try:
-                    evs, p, root, outs, tree = EG.run_tool(lha, args, a, rd, mode="extract", wdir=wdir)
+                    if mc:
+                        filters, pre, stdin, answers = mc
+                        evs, p, root, outs, tree = EG.run_tool(lha, args, a, rd, mode="extract", wdir=wdir, pre=pre, stdin=stdin, filters=filters)
+                    else:
+                        evs, p, root, outs, tree = EG.run_tool(lha, args, a, rd, mode="extract", wdir=wdir)
                 except subprocess.TimeoutExpired:
                     f.write(json.dumps({"e": "Timeout", "case": i}) + "\n")
                     continue
-                evs.append(expect_event(t, root, tree, {"ignore_path": "i" in opt, "wdir": wdir}))
+                if mc:
+                    evs.append(model_event(t, tree, opt, filters, pre, answers))
+                else:
+                    evs.append(expect_event(t, root, tree, {"ignore_path": "i" in opt, "wdir": wdir}))
                 if p.returncode not in (0, 1):       # 1: some entry failed (e.g. an unsafe link in a read-only directory) - a normal exit
                     evs.append({"e": "AbnormalExit", "code": p.returncode, "stderr": p.stderr.decode(errors="replace")[-300:], "stdout": p.stdout.decode(errors="replace")[-300:]})
                 for e in evs:
@@ -212,11 +341,17 @@ def run(tier, seed, ev):
         return tr, tr, n, P()
     with cf.ThreadPoolExecutor(max_workers=V.NCPU) as ex:
         results = [r for r in ex.map(one, range(V.NCPU)) if r[2] > 0]
+    results += policy_pass(rng, sc, tier, ev)
     viols, good = TR.validate_all("Trace_Extract", "Trace_Extract", results, ev, "C06", xmx="4g")
+    # the print command: banner + exactly the selected members' contents (Cli.tla)
+    import clicommon as CL
+    viols += CL.run("C06", tier, seed, ev, 12 if tier == "quick" else 200, modes=("p",))
     ev.add("traces_validated_against_impl", good)
     ev.set("extractions", len(cases))
-    for (i, t, opt) in cases:
-        ev.cls((tuple(opt), len(t.members) > 5, bool(t.has_deferred), any(m.os == ord("m") for m in t.members)))
+    for (i, t, opt, mc) in cases:
+        ev.cls((tuple(opt), len(t.members) > 5, bool(t.has_deferred), any(m.os == ord("m") for m in t.members),
+                bool(mc and mc[0]), bool(mc and mc[1])))
+    ev.set("extractions_decided_by_TreeModel", sum(1 for c in cases if c[3]))
     ev.sample({"options": cases[0][2], "entries": [it["p"].decode("latin1") + ("/" if it["ty"] == "dir" else "") for it in cases[0][1].items][:20]})
     ev.set("rule", "one extraction per generated directory-first tree and option set; distinct = (options, large tree, has unsafe links, has Mac members)")
     shutil.rmtree(sc, ignore_errors=True)
